@@ -6,6 +6,7 @@ import (
 	"errors"
 	"fmt"
 	"io"
+	"math"
 	"net/http"
 	"net/url"
 	"os"
@@ -261,7 +262,11 @@ func ReadAllTargets(t Targeter) (tgts []Target, err error) {
 // hdr will be merged with the each Target's headers.
 func NewHTTPTargeter(src io.Reader, body []byte, hdr http.Header) Targeter {
 	var mu sync.Mutex
-	sc := peekingScanner{src: bufio.NewScanner(src)}
+	scanner := bufio.NewScanner(src)
+	// No limit on the length of a line: with the default of 64 KiB a longer
+	// URL or header value silently ended the target, or the whole file.
+	scanner.Buffer(nil, math.MaxInt32)
+	sc := peekingScanner{src: scanner}
 	return func(tgt *Target) (err error) {
 		mu.Lock()
 		defer mu.Unlock()
